@@ -1,7 +1,7 @@
 #!/bin/bash
 # tools/runall.sh [quick|thorough] [seed]  -- runs every check, prints one line each
 tier=${1:-quick}; seed=${2:-1}
-cd /verif
+cd "$(dirname "$(readlink -f "$0")")/.."
 for id in $(python3 -c "import json;print(' '.join(c['property_id'] for c in json.load(open('MANIFEST.json'))['checks']))"); do
   start=$(date +%s)
   out=$(VERIF_SEED=$seed ./check $id $tier 2>&1); rc=$?
